@@ -1,10 +1,10 @@
 SPECIFICATION SpecLists
 CONSTANTS
   Bug = ""
-  N0 = 3
+  N0 = 4
   N1 = 2
   N2 = 1
-  L1 = 1
+  L1 = 2
   L2 = 1
   MaxArgs = 0
   Fns = {}
